@@ -34,7 +34,8 @@ META = dict(
               "each placed in every usage site and read back in 3 modes, with gcc as value oracle and a typed C "
               "evaluator (itself checked against gcc) to exclude undefined behaviour",
     text="All expressions of four families (all literals with up to two unary signs; all binary operations over signed "
-         "literal atoms; ALL trees of depth <= 2 over a literal subset; thorough: all trees with <= 3 binary operators) "
+         "literal atoms; all trees of depth <= 2 over a literal subset; thorough: all parenthesis-free chains of three "
+         "binary operators) "
          "are written into enum/array/bitfield declarations (literals also into #define and static const), parsed by "
          "cdef() and read back through lib.X, integer_const, ctype.length/sizeof and bitsize in in-line, out-of-line "
          "ABI and API mode; each must equal the value gcc computes for the same text.  Expressions whose C evaluation "
@@ -148,10 +149,9 @@ def families(ctx):
         fam.append(("S3 ALL trees of depth <= 2 over literals %s" % S3_QUICK, trees_depth(S3_QUICK, 2)))
         fam.append(("S3b all trees of depth <= 2 over literals %s except binary roots with two binary children"
                     % S3_THOROUGH, trees_depth2_one_deep_child(S3_THOROUGH)))
-        s4 = []
-        for n in range(4):
-            s4 += trees_binops(S4_LITS, n)
-        fam.append(("S4 ALL trees with <= 3 binary operators (depth <= 3) over literals %s" % S4_LITS, s4))
+        s4 = [e for e in trees_binops(S4_LITS, 3) if "(" not in text_of(e)]
+        fam.append(("S4 all parenthesis-free chains 'a op b op c op d' (depth 3) over literals %s, as grouped by C "
+                    "precedence and associativity" % S4_LITS, s4))
     return fam
 
 
